@@ -56,6 +56,9 @@ def cases(draw):
             "k": draw(st.integers(1, 2)), "leaving": draw(st.integers(0, n - 1)),
             # the runtime's --delay option (seconds between deliveries of algorithm messages), off in most runs
             "delay": draw(st.sampled_from([None, None, None, 0.004])),
+            # when metrics are collected (the runtime's --collect_on / --period options): on value change (default),
+            # on cycle change, or periodically - a periodic action of every agent's management computation
+            "collect": draw(st.sampled_from([None, None, ["cycle_change", None], ["period", 0.02], ["period", 0.2]])),
             "switch_us": draw(st.sampled_from([5, 50, 500, 5000])),
             "naps": draw(st.lists(st.sampled_from([0, 0, 0, 0, 1, 2, 5]), min_size=8, max_size=8)),
             "rng_seed": draw(st.integers(0, 10 ** 6))}
@@ -106,6 +109,7 @@ class Probes:
 KNOWN_OFF_THREAD = {("orchestrator", "_directory", "start", "api-caller"),
                     ("orchestrator", "_mgt_orchestrator", "start", "api-caller")}
 
+PERIODIC_METHODS = ["send_metrics", "delayed_start", "tick"]
 DISCOVERY_CALLBACKS = ["_cb_agent_registration", "_cb_computation_registration", "_cb_replica_registration",
                        "_on_agent_event"]
 
@@ -168,6 +172,11 @@ def run_case(case):
                 computation._vf_probed = True
                 for meth in ("start", "on_message", "pause"):
                     setattr(computation, meth, probes.wrap(self.name, name, meth, getattr(computation, meth)))
+                for meth in PERIODIC_METHODS:
+                    # every method the code base registers as a periodic action: probed however it gets called
+                    if hasattr(computation, meth):
+                        setattr(computation, meth, probes.wrap(self.name, name, "periodic:" + meth,
+                                                               getattr(computation, meth)))
                 for meth in DISCOVERY_CALLBACKS:
                     if hasattr(computation, meth):
                         setattr(computation, meth, probes.wrap(self.name, name, "discovery:" + meth,
@@ -193,7 +202,9 @@ def run_case(case):
                 try:
                     with under_test():
                         if case["kind"] == "solve":
-                            o = run_local_thread_dcop(algo, cg, distribution, dcop, 10000, delay=case.get("delay"))
+                            col = case.get("collect")
+                            kw = {"collect_moment": col[0], "period": col[1]} if col else {}
+                            o = run_local_thread_dcop(algo, cg, distribution, dcop, 10000, delay=case.get("delay"), **kw)
                             holder["o"] = o
                             o.set_error_handler(lambda e: fatal.append(repr(e)[:300]))
                             phase[0] = "deploy"
